@@ -8,7 +8,7 @@
 //!                                                  5 prepare_single 6 present_internal 7 present_file
 //!                                                  code 0 add, 1 add with Id::no_override(), 2 remove
 //! payload  = (L 0 from to) | (L 1 prefix body [pref]) | (L 2 prefix) | (L 3)
-//!            pref = server cache preference of the Prepare answer: 0 None, 1 Full, 2 QueryMatters
+//!            pref = server cache preference of the Prepare answer: 0 None, 1 Full, 2 QueryMatters; 3 = Full with a future that streams "+streamed" after the body
 //! request  = (B path) = GET path | (L method (B target) (L) | (L start end))   method 0 GET 1 HEAD 2 POST 3 PUT 4 DELETE
 //! options  = (L cache (L) | (L (L (L path content)...)))   response cache on/off; files of the public directory (else fs disabled)
 //! result   = (L (L outcome (L event...))...)   outcome = (L 0 (L status body)) | (L 2) connection closed without answer
@@ -36,7 +36,11 @@ fn fat(body: &[u8], pref: u128) -> FatResponse {
     match pref {
         0 => FatResponse::no_cache(r),
         1 => FatResponse::cache(r),
-        _ => FatResponse::cache(r).with_server_cache(comprash::ServerCachePreference::QueryMatters),
+        2 => FatResponse::cache(r).with_server_cache(comprash::ServerCachePreference::QueryMatters),
+        // a streamed body of unknown length: the future writes after the body
+        _ => FatResponse::cache(r).with_future(kvarn::response_pipe_fut!(pipe, _host, {
+            let _ = pipe.send(Bytes::from_static(b"+streamed")).await;
+        })),
     }
 }
 
@@ -88,7 +92,7 @@ fn parse_edit(x: &X) -> Option<Edit> {
         (3, 1) => (Vec::new(), Vec::new()),
         _ => return None,
     };
-    if pref >= 3 || ppref >= 3 {
+    if pref >= 4 || ppref >= 4 {
         return None;
     }
     let (kind, code) = (l[0].as_n()?, l[1].as_n()?);
@@ -317,16 +321,18 @@ async fn one_request(desc: Arc<PortDescriptor>, r: &Req) -> std::io::Result<Opti
         if let Some(he) = head_end {
             let head = String::from_utf8_lossy(&buf[..he]).to_ascii_lowercase();
             let status: u16 = head.split(' ').nth(1).and_then(|s| s.parse().ok()).unwrap_or(0);
-            let len: usize = if head_only {
-                0
+            // no content-length (a streamed body): the body ends where the connection ends
+            let len: Option<usize> = if head_only {
+                Some(0)
             } else {
-                head.lines()
-                    .find_map(|l| l.strip_prefix("content-length:").map(|v| v.trim().parse::<usize>().unwrap_or(0)))
-                    .unwrap_or(0)
+                head.lines().find_map(|l| l.strip_prefix("content-length:").map(|v| v.trim().parse::<usize>().unwrap_or(0)))
             };
-            if buf.len() >= he + len {
-                result = Some((status, buf[he..he + len].to_vec()));
-                break;
+            match len {
+                Some(len) if buf.len() >= he + len => {
+                    result = Some((status, buf[he..he + len].to_vec()));
+                    break;
+                }
+                _ => {}
             }
         }
         let n = match tokio::time::timeout(READ_TIMEOUT, client.read(&mut tmp)).await {
@@ -336,6 +342,14 @@ async fn one_request(desc: Arc<PortDescriptor>, r: &Req) -> std::io::Result<Opti
             Err(_) => return Err(std::io::Error::new(std::io::ErrorKind::TimedOut, "no response")),
         };
         if n == 0 {
+            if let Some(he) = head_end {
+                let head = String::from_utf8_lossy(&buf[..he]).to_ascii_lowercase();
+                if !head.contains("content-length:") {
+                    let status: u16 = head.split(' ').nth(1).and_then(|s| s.parse().ok()).unwrap_or(0);
+                    result = Some((status, buf[he..].to_vec()));
+                    break;
+                }
+            }
             if !buf.is_empty() {
                 return Err(std::io::Error::new(std::io::ErrorKind::UnexpectedEof, "partial response"));
             }
